@@ -386,9 +386,16 @@ def deb_case(ctx, idx, rng):
     for pkg in packages:
         tmpdir = os.path.join(root, 'tmp-' + os.path.basename(pkg))
         os.makedirs(tmpdir)
-        out, err, rc = run_cli(['--unpack-deb', os.path.basename(pkg)], root, {'TMPDIR': tmpdir})
+        # the package is named by a bare file name, by a path with a directory, or by an absolute path: members are printed under the name as given
+        how = idx % 3
+        if how == 0:
+            what, cwd = os.path.basename(pkg), root
+        elif how == 1:
+            what, cwd = os.path.join(os.path.basename(root), os.path.basename(pkg)), os.path.dirname(root)
+        else:
+            what, cwd = pkg, root
+        out, err, rc = run_cli(['--unpack-deb', what], cwd, {'TMPDIR': tmpdir})
         left = os.listdir(tmpdir)
-        what = os.path.basename(pkg)
         # path rewritten to <package>/<member>
         exp = {m: o.replace(': %s: ' % m, ': %s/%s: ' % (what, m)) for m, o in per_member.items()}
         got_lines = sorted(out.split('\n')[:-1])
